@@ -518,6 +518,25 @@ fn supports_request(version: &[u8; 4], request_specific: &crate::common::Request
     }
 }
 
+#[cfg(mainline_verif)]
+impl KrpcSocket {
+    /// Verification hook: (entries in the in-flight vector, entries not yet expired, next tid,
+    /// request timeout in microseconds).
+    pub fn verif_inflight(&self) -> (usize, usize, u32, u128) {
+        let timeout = self.inflight_requests.request_timeout();
+        (
+            self.inflight_requests.requests.len(),
+            self.inflight_requests
+                .requests
+                .iter()
+                .filter(|r| r.sent_at.elapsed() < timeout)
+                .count(),
+            self.inflight_requests.next_tid,
+            timeout.as_micros(),
+        )
+    }
+}
+
 #[cfg(test)]
 mod test {
     use std::thread;
